@@ -19,6 +19,8 @@ from unittest import mock
 
 import torch
 
+torch.set_num_threads(1)
+
 from vlib import cb, cl, cln, cn, coq_eval_bools, coq_eval_print, exc_kind, load_corpus, shrink
 
 IMPORTS = ("From Coq Require Import Qcanon.\nFrom PV Require Import C05.Model C05.Spec.\n"
@@ -740,6 +742,13 @@ def run(chk, cases=None):
         "topk's answer is observed (step outputs; for the module through a recording wrapper around "
         "_decoding.ctc_prefix_search_advance) and validated by Model.topk_ok instead of being predicted",
         "cells of y outside y_lens are undefined and not compared",
+    ]
+    chk.extra["trusted_base"] = [
+        "C05: torch.topk's answer is an input of the model (observed from the step outputs), constrained by Model.topk_ok; "
+        "the theorems hold for every admissible answer and c05_admissible_choices_exist shows one always exists",
+        "C05: IEEE rounding is not modelled; NaN / +inf are policed on every output (regime N), -inf is modelled (mass = NegInf | Fin q)",
+        "C05: the language model is a function prefix -> row in the model; the code's state plumbing (extract_by_src, mix_by_mask) "
+        "is only covered by the correspondence with a stateful hash LM",
     ]
     replaying = cases is not None
     cases = cases if cases is not None else gen_cases(chk)
